@@ -91,12 +91,12 @@ func TestC12Takeover(t *testing.T) {
 				}
 				var c2 *Client
 				onNode2(func() {
-				c2 = w.NewClient("c2", p.Placement, AckAll)
-				if rc := c2.Connect(ConnectOpts{ClientID: "X", KeepAlive: 600}); rc != 0 {
-					viol("c12-new-session-refused", "the second connection with the same client identifier got CONNACK %d", rc)
-					return
-				}
-				w.Step()
+					c2 = w.NewClient("c2", p.Placement, AckAll)
+					if rc := c2.Connect(ConnectOpts{ClientID: "X", KeepAlive: 600}); rc != 0 {
+						viol("c12-new-session-refused", "the second connection with the same client identifier got CONNACK %d", rc)
+						return
+					}
+					w.Step()
 				})
 				if c2.SessionID == "" {
 					return
@@ -342,4 +342,3 @@ func TestC12Takeover(t *testing.T) {
 			rep.Floor("completed_paths", 100, rep.Nontrivial)
 		})
 }
-
